@@ -26,7 +26,11 @@ TInit == /\ x \in 1..Len(Ix) /\ l = Ix[x].s + 1
 
 P == INSTANCE PoolP WITH Tasks <- TTasks, Threads <- TThreads, MaxThreads <- 1   \* the maximum is passed per action (M variants)
 
-Is(name) == l <= Ix[x].e /\ E.e = name
+\* an event that names a task or a thread outside the recorded ranges (an id read from an object that no longer exists) matches
+\* no action: the execution is rejected at that event instead of TLC failing to evaluate ts[k]
+InRange(name) == /\ (name \in {"Submit", "StartRet", "StartThrew", "RunBegin", "RunEnd", "Destroy"} => E.k \in TTasks)
+                 /\ (name \in {"WorkerStart", "WorkerExit"} => E.w \in TThreads)
+Is(name) == l <= Ix[x].e /\ E.e = name /\ InRange(name)
 Adv0 == l' = l + 1 /\ UNCHANGED <<x, mx, mxHi>>
 Adv == Adv0 /\ UNCHANGED <<retd, pre>>
 TNext == \/ Is("Submit") /\ P!Submit(E.k) /\ pre' = [pre EXCEPT ![E.k] = retd] /\ UNCHANGED retd /\ Adv0
